@@ -36,7 +36,7 @@ def run_pytest(d, fname, style, opt):
     import pytest
     r = Rec()
     buf = io.StringIO()
-    args = ['--xdoctest', '--xdoctest-style=' + style, '-p', 'no:cacheprovider', '-q', '--rootdir', d,
+    args = ['--xdoctest', '--xdoctest-style=' + style, *harness.PYTEST_ISOLATION_ARGS, '-q', '--rootdir', d,
             '-c', '/dev/null', fname]
     if opt:
         args.insert(2, '--xdoctest-options=' + opt)
@@ -221,7 +221,7 @@ class SubprocessSpec(FrontEndSpec):
                     exp_p = {k: ('skipped' if v == 'disabled' else v) for k, v in exp.items()}
                     exp_n = {k: v for k, v in exp.items() if v != 'disabled'}
                     anyfail = any(v == 'failed' for v in exp.values())
-                    pa = [sys.executable, '-m', 'pytest', '--xdoctest', '--xdoctest-style=' + style, '-p', 'no:cacheprovider',
+                    pa = [sys.executable, '-m', 'pytest', '--xdoctest', '--xdoctest-style=' + style, *harness.PYTEST_ISOLATION_ARGS,
                           '-v', '--rootdir', d, '-c', '/dev/null', fname] + (['--xdoctest-options=' + opt] if opt else [])
                     na = [sys.executable, '-m', 'xdoctest', fname, 'all', '--style=' + style, '--verbose=1', '--nocolor'] + (
                         ['--options=' + opt] if opt else [])
